@@ -23,7 +23,7 @@ ENGINE = "E2 explicit-state exploration of operation histories on live objects"
 RULE = (
     "6 charts (one with body lines out of tick order) x every sequence of <= D read-only operations out of the operation alphabet (subscripting by all 10 instruments, "
     "map reads, notes_per_second in all forms on present/absent/note-less tracks incl. failing ones, tick-to-time queries valid "
-    "and invalid, str/repr/==/hash, derived attributes, rejected attribute assignment); after every operation the public "
+    "and invalid, str/repr/==/hash, derived attributes, copies, attribute assignment to every public / new / private name of every event and track object, which must raise); after every operation the public "
     "observation and twin equality are compared with the initial ones; distinct = distinct (chart, sequence); non-trivial = all"
 )
 ASSUMPTIONS = [
